@@ -148,11 +148,10 @@ class WebSocketCodec(BaseComponent):
                     break
                 # check for Ping
                 elif opcode == 9:
-                    if self._close_sent:
-                        return None
-                    frame = bytearray(b'\x8a')
-                    frame += self._encode_tail(msg, self._sock is None)
-                    self._write(frame)
+                    if not self._close_sent:
+                        frame = bytearray(b'\x8a')
+                        frame += self._encode_tail(msg, self._sock is None)
+                        self._write(frame)
             else:
                 self._pending_payload = msg
                 if opcode != 0:
